@@ -23,7 +23,7 @@ OUTPUTS = ["pandas", "numpy", "sparse"]
 
 
 def spec_for(fid):
-    """mirror of MC_Missing!Formulas 4,5,8,9,10,11,12 -> (formula spec, kwargs, expected shape, per-part term strings)"""
+    """mirror of MC_Missing!Formulas 4,5,8,9,10,11,12,13,14 -> (formula spec, kwargs, expected shape, per-part term strings)"""
     from formulaic import Formula
 
     if fid == 4:
@@ -40,6 +40,10 @@ def spec_for(fid):
         return (lambda: Formula(lhs="b", rhs="a + A")), {"lhs": 0, "rhs": 1}
     if fid == 12:
         return (lambda: Formula(x="b ~ a", y=("A", "a"))), {"x": {"lhs": 0, "rhs": 1}, "y": (2, 3)}
+    if fid == 13:
+        return (lambda: Formula("b ~ 0 + C(A, contr.sum) | C(A, contr.sum) + a")), {"lhs": 0, "rhs": (1, 2)}
+    if fid == 14:
+        return (lambda: Formula("C(A, contr.helmert) | 0 + C(A, contr.helmert) + C(A, contr.helmert):b")), {"root": (0, 1)}
     raise ValueError(fid)
 
 
@@ -134,7 +138,7 @@ def replay_case(case):
 
 
 def run(ctx: Ctx) -> None:
-    ctx.rule = ("7 structured formulas (two-sided, multi-part on either side, an empty part, tuple, keyword and nested keyword/tuple structure) x every "
+    ctx.rule = ("9 structured formulas (two-sided, multi-part on either side, an empty part, tuple, keyword and nested keyword/tuple structure) x every "
                 "null pattern with <= MaxNulls nulls per column x policy x caller set; output and index kind cycled; non-trivial = nulls in the "
                 "variables of different parts and >= 1 kept row")
     ctx.trusted = ["gamma/alpha of the materializer family", "TLC"]
